@@ -735,7 +735,11 @@ func liveSupplement(run *vkRun, tier string) {
 	// skeleton replaces that has a real two-goroutine race): both outcomes of
 	// the writer goroutine's select are forced by holding its write until the
 	// stream is stopped; repeated until both have been seen (64 trials)
-	written, leftover, detail := c15dsCheck(64)
+	written, leftover, detail, crashed := liveDesyncChild(exe, 64)
+	if crashed != "" {
+		// the free-running node terminated its process (panic / fatal error): that is what C15 forbids
+		run.Violation("live:process-terminated:desync-script", "the free-running node of the pipeline-stop script terminated its process: "+crashed, map[string]interface{}{"cmd": "vraft desync --trials 64"})
+	}
 	run.Cov["pipeline_stop_desync"] = map[string]interface{}{"trials": 64, "writes_released_after_stop": written, "pooled_connections_with_unread_response": leftover, "detail": detail}
 	if leftover > 0 {
 		run.Violation("alive:pooled-connection-with-unread-response", fmt.Sprintf("after replication was stopped during a pipelined write, %d of %d trials left a connection with an unread append response in the shared connection pool (the next vote/timeout-now RPC on it is misframed)", leftover, written), map[string]interface{}{"cmd": "vraft desync --trials 64", "detail": detail})
@@ -746,4 +750,30 @@ func liveSupplement(run *vkRun, tier string) {
 	for _, r := range racePass.Races {
 		run.Violation("race:"+r, "data race reported by the free-running -race pass, top frame "+r+" (run `.build/bin/vraft-race live` for the full report)", map[string]interface{}{"cmd": "vraft-race live"})
 	}
+}
+
+// liveDesyncChild runs the pipeline-stop script in a child process; a child that dies is reported, never re-run in-process.
+func liveDesyncChild(exe string, trials int) (written, leftover int, detail []string, crashed string) {
+	cmd := exec.Command(exe, "desync", "--json", "--trials", fmt.Sprint(trials))
+	var stderr bytes.Buffer
+	cmd.Stderr = &stderr
+	out, err := cmd.Output()
+	var res struct {
+		Written  int      `json:"written"`
+		Leftover int      `json:"leftover"`
+		Detail   []string `json:"detail"`
+	}
+	if json.Unmarshal(out, &res) == nil && (err == nil || res.Written > 0) {
+		return res.Written, res.Leftover, res.Detail, ""
+	}
+	msg := stderr.String()
+	if i := strings.Index(msg, "panic:"); i >= 0 {
+		msg = msg[i:]
+	} else if i := strings.Index(msg, "fatal error:"); i >= 0 {
+		msg = msg[i:]
+	}
+	if len(msg) > 400 {
+		msg = msg[:400]
+	}
+	return 0, 0, nil, fmt.Sprintf("%v: %s", err, strings.Replace(msg, "\n", " | ", -1))
 }
